@@ -218,6 +218,9 @@ func (l *Gpos6_1) encode() []byte {
 			}
 		}
 	}
+	if mark2ArrayOffset > 0xFFFF || total-mark2ArrayOffset > 0xFFFF || markClassCount > 0xFFFF || mark2Count > 0xFFFF {
+		panic("GPOS6.1 table too large")
+	}
 	res := make([]byte, 0, total)
 
 	res = append(res,
